@@ -72,4 +72,30 @@ theorem normalizeOptimize_preserves_partial (env : Env) (ptr align : Nat) :
   rw [himg, substTrivial_runSub env ss.1 (hp ss.1 hmem) σ fuel hσ hok hns]
   exact tracesAgree_refl _
 
+/-! ### non-vacuity: the hypotheses are satisfiable and the rules fire -/
+
+private def rax : Variable := ⟨"RAX", 8, false⟩
+private def rbx : Variable := ⟨"RBX", 8, false⟩
+
+/-- the repaired rule: `0 == RAX - RBX ⇝ RAX == RBX`, and `1 == RAX - RBX` is left alone (D2) -/
+example : substTrivial (.BinOp .IntEqual (.Const 8 0) (.BinOp .IntSub (.Var rax) (.Var rbx))) =
+    .BinOp .IntEqual (.Var rax) (.Var rbx) := by decide
+example : substTrivial (.BinOp .IntEqual (.Const 8 1) (.BinOp .IntSub (.Var rax) (.Var rbx))) =
+    .BinOp .IntEqual (.Const 8 1) (.BinOp .IntSub (.Var rax) (.Var rbx)) := by decide
+/-- the unrepaired rule rewrote it to `RAX != RBX` -/
+example : substEquivalentComparisonOpsD2 (.BinOp .IntEqual (.Const 8 1) (.BinOp .IntSub (.Var rax) (.Var rbx))) =
+    .BinOp .IntNotEqual (.Var rax) (.Var rbx) := by decide
+
+/-- hypotheses of `substTrivial_eval` on a concrete state and expression: a well-formed state, a well-sized
+expression that evaluates -/
+example : ∃ (σ : State) (e : Expression) (v : Bv), StateWF σ ∧ WellSized e ∧ boolOk σ e = true ∧ eval σ e = some v :=
+  ⟨{ seed := 1 }, .BinOp .IntXOr (.Const 8 5) (.Const 8 5), Bv.ofBytes 8 0, stateWF_default 1, by decide, rfl, rfl⟩
+
+/-- a table with one entry is valid in the state after the assignment that created it -/
+example : TableValid (({ seed := 1 } : State).setReg rax (Bv.ofBytes 8 7)) [(rax, .Const 8 7)] := by
+  intro p hp
+  simp only [List.mem_singleton] at hp
+  subst hp
+  exact ⟨by rw [eval_const, getReg_setReg]; rfl, rfl⟩
+
 end CweModel.C10
